@@ -23,6 +23,7 @@ import (
 	metric_exporter "github.com/alibaba/sentinel-golang/exporter/metric"
 	"github.com/alibaba/sentinel-golang/logging"
 	"github.com/alibaba/sentinel-golang/util"
+	"github.com/alibaba/sentinel-golang/util/vhook"
 	"github.com/pkg/errors"
 )
 
@@ -79,6 +80,7 @@ func (s *State) String() string {
 }
 
 func (s *State) get() State {
+	vhook.Yield(301)
 	return State(atomic.LoadInt32((*int32)(s)))
 }
 
@@ -87,6 +89,7 @@ func (s *State) set(update State) {
 }
 
 func (s *State) cas(expect State, update State) bool {
+	vhook.Yield(302)
 	return atomic.CompareAndSwapInt32((*int32)(s), int32(expect), int32(update))
 }
 
@@ -152,18 +155,22 @@ func (b *circuitBreakerBase) CurrentState() State {
 }
 
 func (b *circuitBreakerBase) retryTimeoutArrived() bool {
+	vhook.Yield(303)
 	return util.CurrentTimeMillis() >= atomic.LoadUint64(&b.nextRetryTimestampMs)
 }
 
 func (b *circuitBreakerBase) updateNextRetryTimestamp() {
+	vhook.Yield(304)
 	atomic.StoreUint64(&b.nextRetryTimestampMs, util.CurrentTimeMillis()+uint64(b.retryTimeoutMs))
 }
 
 func (b *circuitBreakerBase) addCurProbeNum() {
+	vhook.Yield(305)
 	atomic.AddUint64(&b.curProbeNumber, 1)
 }
 
 func (b *circuitBreakerBase) resetCurProbeNum() {
+	vhook.Yield(306)
 	atomic.StoreUint64(&b.curProbeNumber, 0)
 }
 
@@ -172,6 +179,7 @@ func (b *circuitBreakerBase) resetCurProbeNum() {
 func (b *circuitBreakerBase) fromClosedToOpen(snapshot interface{}) bool {
 	if b.state.cas(Closed, Open) {
 		b.updateNextRetryTimestamp()
+		vhook.Yield(307)
 		for _, listener := range stateChangeListeners {
 			listener.OnTransformToOpen(Closed, *b.rule, snapshot)
 		}
@@ -186,6 +194,7 @@ func (b *circuitBreakerBase) fromClosedToOpen(snapshot interface{}) bool {
 // Return true only if current goroutine successfully accomplished the transformation.
 func (b *circuitBreakerBase) fromOpenToHalfOpen(ctx *base.EntryContext) bool {
 	if b.state.cas(Open, HalfOpen) {
+		vhook.Yield(307)
 		for _, listener := range stateChangeListeners {
 			listener.OnTransformToHalfOpen(Open, *b.rule)
 		}
@@ -199,6 +208,7 @@ func (b *circuitBreakerBase) fromOpenToHalfOpen(ctx *base.EntryContext) bool {
 			// this hook will guarantee current circuit breaker state machine will rollback to Open from Half-Open
 			entry.WhenExit(func(entry *base.SentinelEntry, ctx *base.EntryContext) error {
 				if ctx.IsBlocked() && b.state.cas(HalfOpen, Open) {
+					vhook.Yield(307)
 					for _, listener := range stateChangeListeners {
 						listener.OnTransformToOpen(HalfOpen, *b.rule, 1.0)
 					}
@@ -219,6 +229,7 @@ func (b *circuitBreakerBase) fromHalfOpenToOpen(snapshot interface{}) bool {
 	if b.state.cas(HalfOpen, Open) {
 		b.resetCurProbeNum()
 		b.updateNextRetryTimestamp()
+		vhook.Yield(307)
 		for _, listener := range stateChangeListeners {
 			listener.OnTransformToOpen(HalfOpen, *b.rule, snapshot)
 		}
@@ -234,6 +245,7 @@ func (b *circuitBreakerBase) fromHalfOpenToOpen(snapshot interface{}) bool {
 func (b *circuitBreakerBase) fromHalfOpenToClosed() bool {
 	if b.state.cas(HalfOpen, Closed) {
 		b.resetCurProbeNum()
+		vhook.Yield(307)
 		for _, listener := range stateChangeListeners {
 			listener.OnTransformToClosed(HalfOpen, *b.rule)
 		}
@@ -312,14 +324,17 @@ func (b *slowRtCircuitBreaker) OnRequestComplete(rt uint64, _ error) {
 		return
 	}
 	if rt > b.maxAllowedRt {
+		vhook.Yield(310)
 		atomic.AddUint64(&counter.slowCount, 1)
 	}
+	vhook.Yield(311)
 	atomic.AddUint64(&counter.totalCount, 1)
 
 	slowCount := uint64(0)
 	totalCount := uint64(0)
 	counters := metricStat.allCounter()
 	for _, c := range counters {
+		vhook.Yield(313)
 		slowCount += atomic.LoadUint64(&c.slowCount)
 		totalCount += atomic.LoadUint64(&c.totalCount)
 	}
@@ -335,6 +350,7 @@ func (b *slowRtCircuitBreaker) OnRequestComplete(rt uint64, _ error) {
 			b.fromHalfOpenToOpen(1.0)
 		} else {
 			b.addCurProbeNum()
+			vhook.Yield(314)
 			if b.probeNumber == 0 || atomic.LoadUint64(&b.curProbeNumber) >= b.probeNumber {
 				// succeed to probe
 				b.fromHalfOpenToClosed()
@@ -374,6 +390,7 @@ type slowRequestCounter struct {
 }
 
 func (c *slowRequestCounter) reset() {
+	vhook.Yield(315)
 	atomic.StoreUint64(&c.slowCount, 0)
 	atomic.StoreUint64(&c.totalCount, 0)
 }
@@ -390,7 +407,9 @@ func (s *slowRequestLeapArray) NewEmptyBucket() interface{} {
 }
 
 func (s *slowRequestLeapArray) ResetBucketTo(bw *sbase.BucketWrap, startTime uint64) *sbase.BucketWrap {
+	vhook.Yield(316)
 	atomic.StoreUint64(&bw.BucketStart, startTime)
+	vhook.Yield(317)
 	bw.Value.Store(&slowRequestCounter{
 		slowCount:  0,
 		totalCount: 0,
@@ -500,14 +519,17 @@ func (b *errorRatioCircuitBreaker) OnRequestComplete(_ uint64, err error) {
 		return
 	}
 	if err != nil {
+		vhook.Yield(312)
 		atomic.AddUint64(&counter.errorCount, 1)
 	}
+	vhook.Yield(311)
 	atomic.AddUint64(&counter.totalCount, 1)
 
 	errorCount := uint64(0)
 	totalCount := uint64(0)
 	counters := metricStat.allCounter()
 	for _, c := range counters {
+		vhook.Yield(313)
 		errorCount += atomic.LoadUint64(&c.errorCount)
 		totalCount += atomic.LoadUint64(&c.totalCount)
 	}
@@ -521,6 +543,7 @@ func (b *errorRatioCircuitBreaker) OnRequestComplete(_ uint64, err error) {
 	if curStatus == HalfOpen {
 		if err == nil {
 			b.addCurProbeNum()
+			vhook.Yield(314)
 			if b.probeNumber == 0 || atomic.LoadUint64(&b.curProbeNumber) >= b.probeNumber {
 				b.fromHalfOpenToClosed()
 				b.resetMetric()
@@ -559,6 +582,7 @@ type errorCounter struct {
 }
 
 func (c *errorCounter) reset() {
+	vhook.Yield(315)
 	atomic.StoreUint64(&c.errorCount, 0)
 	atomic.StoreUint64(&c.totalCount, 0)
 }
@@ -575,7 +599,9 @@ func (s *errorCounterLeapArray) NewEmptyBucket() interface{} {
 }
 
 func (s *errorCounterLeapArray) ResetBucketTo(bw *sbase.BucketWrap, startTime uint64) *sbase.BucketWrap {
+	vhook.Yield(316)
 	atomic.StoreUint64(&bw.BucketStart, startTime)
+	vhook.Yield(317)
 	bw.Value.Store(&errorCounter{
 		errorCount: 0,
 		totalCount: 0,
@@ -685,14 +711,17 @@ func (b *errorCountCircuitBreaker) OnRequestComplete(_ uint64, err error) {
 		return
 	}
 	if err != nil {
+		vhook.Yield(312)
 		atomic.AddUint64(&counter.errorCount, 1)
 	}
+	vhook.Yield(311)
 	atomic.AddUint64(&counter.totalCount, 1)
 
 	errorCount := uint64(0)
 	totalCount := uint64(0)
 	counters := metricStat.allCounter()
 	for _, c := range counters {
+		vhook.Yield(313)
 		errorCount += atomic.LoadUint64(&c.errorCount)
 		totalCount += atomic.LoadUint64(&c.totalCount)
 	}
@@ -704,6 +733,7 @@ func (b *errorCountCircuitBreaker) OnRequestComplete(_ uint64, err error) {
 	if curStatus == HalfOpen {
 		if err == nil {
 			b.addCurProbeNum()
+			vhook.Yield(314)
 			if b.probeNumber == 0 || atomic.LoadUint64(&b.curProbeNumber) >= b.probeNumber {
 				b.fromHalfOpenToClosed()
 				b.resetMetric()
